@@ -261,6 +261,11 @@ func fdScenario(k int) {
 	for i, j := range r.Perm(len(table)) {
 		rt[i] = table[j]
 	}
+	crowded := k%8 == 5 // more neighbours on the segment than the stack's neighbour cache holds
+	if crowded {
+		table[0].Mask = tcpip.AddressMask([]byte{255, 255, 0, 0})
+		copy(rt, table) // on-link route first: every neighbour is its own next hop
+	}
 	s.SetRouteTable(rt)
 	// reference next hop: first matching entry; its gateway if it has one
 	nextHop := func(dst []byte) []byte {
@@ -310,6 +315,73 @@ func fdScenario(k int) {
 
 	missing := 0
 	maxUDP4, maxUDP6 := int(mtu)-28, int(mtu)-48
+	if crowded {
+		n := 513 + r.Intn(60)
+		ips := make([][4]byte, n)
+		for i := range ips {
+			ips[i] = [4]byte{10, 0, byte(1 + i/250), byte(1 + i%250)}
+			m := mkmac()
+			setMAC(false, ips[i], [16]byte{}, m)
+			rq := rfc.ARP{HType: 1, PType: 0x0800, HLen: 6, PLen: 4, Op: 1, SHA: m, SPA: ips[i], TPA: a4}
+			pc := g.mark()
+			g.send(m, bcast, rfc.EthARP, rq.Bytes())
+			if i%40 == 39 {
+				// pace the burst: the stack writes its answers without blocking, a full
+				// socket buffer would lose them
+				ip := ips[i]
+				g.wait(&pc, func(f *fdFrame) bool { return f.info.Kind == "arp" && f.info.ARP.Op == 2 && f.info.ARP.TPA == ip })
+			}
+		}
+		// barrier: the last announcement once more, both answers seen
+		cur := g.mark()
+		last := ips[n-1]
+		lm, _ := macOf(last[:])
+		rq := rfc.ARP{HType: 1, PType: 0x0800, HLen: 6, PLen: 4, Op: 1, SHA: lm, SPA: last, TPA: a4}
+		g.send(lm, bcast, rfc.EthARP, rq.Bytes())
+		g.send(lm, bcast, rfc.EthARP, rq.Bytes())
+		isRep := func(f *fdFrame) bool { return f.info.Kind == "arp" && f.info.ARP.Op == 2 && f.info.ARP.TPA == last }
+		ok := true
+		for i := 0; i < 2 && ok; i++ { // at least the answers to the two repeats come after the mark
+			_, ok = g.wait(&cur, isRep)
+		}
+		if !ok {
+			dbg(k, -1, -1, last[:])
+			missing++
+		}
+		// datagrams to the oldest (evicted from the cache of 512) and the newest neighbours
+		for j, idx := range []int{0, 1, 2, n / 2, n - 2, n - 1, 0} {
+			dport := uint16(9000 + j)
+			payload := r.Bytes(1 + r.Intn(200))
+			var werr *tcpip.Error
+			cur := g.mark()
+			for try := 0; try < 4; try++ {
+				var ch <-chan struct{}
+				_, ch, werr = u4.Write(tcpip.SlicePayload(payload), tcpip.WriteOptions{To: &tcpip.FullAddress{Addr: tcpip.Address(ips[idx][:]), Port: dport}})
+				if werr == nil || ch == nil {
+					break
+				}
+				select {
+				case <-ch:
+				case <-time.After(10 * time.Second):
+				}
+			}
+			if werr != nil {
+				run.Count("fd_udp_write_errors:"+werr.String(), 1)
+				continue
+			}
+			f, ok := g.wait(&cur, func(f *fdFrame) bool { return f.info.Kind == "udp4" && f.info.DstPort == dport })
+			if !ok {
+				dbg(k, j, -2, ips[idx][:])
+				missing++
+				continue
+			}
+			want, _ := macOf(ips[idx][:])
+			if f.eth.Dst != want {
+				g.violation("eth-destination/crowded-segment", fmt.Sprintf("UDP datagram for neighbour #%d of %d (%v) leaves with destination MAC %x; that neighbour announced %x (the neighbour cache holds 512 entries)", idx, n, ips[idx], f.eth.Dst, want), f.raw)
+			}
+			run.Count("fd_crowded_segment_datagrams_checked", 1)
+		}
+	}
 	nact := 30
 	sig := []interface{}{"fd", mtu, rt[0].Gateway != "", rt[0].Destination[0]}
 	kinds := map[string]bool{}
